@@ -207,6 +207,12 @@ func main() {
 				solverCount[r.Solver]++
 			} else if r.Status == "engine-error" {
 				undecided = append(undecided, r.Name+": engine fault (the solvers rejected the query or disagreed): "+firstLine(r.Output, ""))
+			} else if callee := uncontractedModuleCallee(rep.Abstr); callee != "" {
+				// Verification is modular: a module function without a contract is
+				// havoc at its call sites. An obligation that does not discharge in
+				// its caller says "needs a contract", not "the property is broken".
+				undecided = append(undecided, r.Name+": not discharged, but "+rep.Name+" calls "+callee+", which has no contract (everything is havocked at that call): write one")
+				r.Status = "undecided"
 			} else {
 				failed = append(failed, r)
 			}
@@ -538,4 +544,19 @@ func runCrossCheck(p *vc.Program, repo, work, prop string) int {
 		return 2
 	}
 	return 0
+}
+
+// uncontractedModuleCallee names a function of the verified module that the
+// reported function calls although it has no contract ("" if there is none).
+func uncontractedModuleCallee(abstr map[string]int) string {
+	const prefix = "call to module function without contract (everything havocked): "
+	best := ""
+	for k := range abstr {
+		if strings.HasPrefix(k, prefix) {
+			if name := k[len(prefix):]; best == "" || name < best {
+				best = name
+			}
+		}
+	}
+	return best
 }
